@@ -410,6 +410,10 @@ func parseHistInput(arg string) (table []segVal, hist []int, err error) {
 }
 
 func replayC10(arg string) string {
+	arg = strings.TrimSpace(arg)
+	if strings.HasPrefix(arg, "long ") || strings.HasPrefix(arg, "order ") {
+		return replayLong(arg)
+	}
 	table, hist, err := parseHistInput(arg)
 	if err != nil {
 		return "bad replay input: " + err.Error()
@@ -839,6 +843,9 @@ func corrC10(r *Run) {
 			r.Sample(map[string]interface{}{"op": "combine", "keys": name, "history": hist, "trace": fmt.Sprint(obs.Trace)})
 		}
 	}
+
+	// ---- long histories and large totals (c10_long.go)
+	c10LongAndLarge(r)
 
 	// ---- end to end: real ComposeMultipartShortMessage output through the combiner (c10_e2e.go)
 	c10EndToEnd(r)
